@@ -19,6 +19,10 @@
 //	send <i> <tid>           follow the span: forwarded events are delivered to the peer router of
 //	                         the node whose instance id is the APIHost; obs: fwd:@a>collect:@a …
 //	table <i>                obs: the partition table as (uhash@addr) sorted by (uhash, addr)
+//	reloadbusy <i> <list>    the list changes while a WhichShard is in flight on node i (read lock
+//	                         held): the reload callback runs in a goroutine, parks on the write lock,
+//	                         the reader finishes, the reload completes; obs: p=<peer list>
+//	reloadbusy2 <i> <l1> <l2> the same with a second change right behind the first
 //
 // ext lines: `h <enc bytes> <seed> = <value>` — the graph of wyhash.Hash at the points the code
 // evaluates (partition hashes, seed chain, trace hashes against the *real* table's uhash values).
@@ -161,19 +165,37 @@ func (comp) Gen(r *kit.Rng, maxLen int, tier string) kit.Case {
 	// the generator tracks each node's source list so that `start` is only asked when it can succeed
 	src := make([][]string, k)
 	var ops []string
+	startedGen := make([]bool, k)
+	var mkList func() []string
 	upd := func(i int, l []string) {
 		src[i] = l
+		// on a started node a third of the list changes arrive while the sharder is busy: a
+		// WhichShard in flight (read lock held) and, sometimes, a second reload right behind
+		if startedGen[i] && r.Chance(33) {
+			if r.Chance(30) {
+				first := perm(r, mkList())
+				if r.Chance(15) {
+					first = nil
+				}
+				ops = append(ops, fmt.Sprintf("reloadbusy2 %d %s %s", i, encList(first), encList(l)))
+			} else {
+				ops = append(ops, fmt.Sprintf("reloadbusy %d %s", i, encList(l)))
+			}
+			return
+		}
 		ops = append(ops, fmt.Sprintf("update %d %s", i, encList(l)))
 	}
 	startOp := func(i int) {
 		if contains(src[i], selfs[i]) {
+			startedGen[i] = true
 			ops = append(ops, fmt.Sprintf("start %d", i))
 		} else if tier == "thorough" && r.Intn(200) == 0 {
+			startedGen[i] = true
 			ops = append(ops, fmt.Sprintf("start %d slow", i))
 		}
 	}
 	// the common list of the cluster
-	mkList := func() []string {
+	mkList = func() []string {
 		l := append([]string(nil), selfs...)
 		if r.Chance(85) {
 			l = append(l, pool[k:k+extra]...)
@@ -445,6 +467,78 @@ func (r *runner) process(n *node, rt *route.Router, tid string) (kind string, ta
 	return fmt.Sprintf("other:u%dp%dc%d", len(up), len(ptx), len(coll)), ""
 }
 
+// busyReload delivers peer-list changes to node n while its sharder is busy: the harness holds
+// peerLock's read lock exactly as an in-flight WhichShard does, then lets MockPeers.UpdatePeers run
+// the registered reload callbacks in a goroutine per list (the second one starts once the first is
+// blocked on the write lock or has returned), releases the read lock and waits for the reloads to
+// finish.  "" = completed; otherwise a diagnostic observation.
+func (r *runner) busyReload(n *node, lists [][]string) string {
+	for _, l := range lists {
+		if len(l) > 0 && n.started {
+			r.extLoad(l)
+		}
+		n.src = l
+	}
+	n.sh.VerifRLock()
+	held := true
+	release := func() {
+		if held {
+			held = false
+			n.sh.VerifRUnlock()
+		}
+	}
+	defer release()
+	var dones []chan string
+	for _, l := range lists {
+		l := l
+		done := make(chan string, 1)
+		pendingBefore := n.sh.VerifWriterPending()
+		go func() {
+			defer func() {
+				if e := recover(); e != nil {
+					done <- "reload-panic"
+					return
+				}
+				done <- ""
+			}()
+			n.mock.UpdatePeers(l)
+		}()
+		dones = append(dones, done)
+		begin := time.Now()
+	wait:
+		for {
+			select {
+			case res := <-done:
+				done <- res
+				break wait
+			default:
+			}
+			switch {
+			case !pendingBefore && n.sh.VerifWriterPending():
+				break wait // the reload is parked in peerLock.Lock() behind our read lock
+			case pendingBefore && time.Since(begin) > 20*time.Millisecond:
+				break wait // queued behind the reload that is already parked
+			case time.Since(begin) > 2*time.Second:
+				break wait
+			}
+			time.Sleep(50 * time.Microsecond)
+		}
+	}
+	release()
+	out := ""
+	for _, done := range dones {
+		select {
+		case res := <-done:
+			if res != "" {
+				out = res
+			}
+		case <-time.After(5 * time.Second):
+			return "reload-hung"
+		}
+	}
+	return out
+}
+
 func (r *runner) Do(op []string) (string, bool) {
 	switch op[0] {
 	case "update":
@@ -458,6 +552,19 @@ func (r *runner) Do(op []string) (string, bool) {
 			r.extLoad(l)
 		}
 		n.mock.UpdatePeers(l)
+		return "p=" + encList(n.sh.VerifPeers()), true
+	case "reloadbusy", "reloadbusy2":
+		n := r.node(op[1])
+		if n == nil || (op[0] == "reloadbusy" && len(op) != 3) || (op[0] == "reloadbusy2" && len(op) != 4) {
+			return "bad-op", true
+		}
+		var lists [][]string
+		for _, a := range op[2:] {
+			lists = append(lists, decList(a))
+		}
+		if res := r.busyReload(n, lists); res != "" {
+			return res, true
+		}
 		return "p=" + encList(n.sh.VerifPeers()), true
 	case "start":
 		n := r.node(op[1])
